@@ -261,10 +261,10 @@ def r7_loader_branches(ctx):
         fn = ctx.func(modname, qual)
         key = '%s:%s' % (modname, qual)
         branch = None
-        for s in fn.body:
-            if isinstance(s, ast.If) and any(path_of(x) == pvar for x in ast.walk(s.test)) and s.orelse:
-                branch = s
-                break
+        cands = [s for s in fn.body if isinstance(s, ast.If) and any(path_of(x) == pvar for x in ast.walk(s.test)) and s.orelse]
+        # the branch that opens the stream (an earlier one may only word a log message)
+        opening = [s for s in cands if any(A.call_target(c)[1] in ('open', 'resource_stream') for c in A.calls_in(s))]
+        branch = opening[0] if opening else (cands[0] if cands else None)
         if branch is None:
             raise AnalysisError('%s: branch on %s not found' % (key, pvar))
         # names assigned in both branches must be the same set (the stream variable)
